@@ -21,9 +21,12 @@
     record `firedEnd` or raise (`raised`).  In the async class a raising handler is routed to the
     machine's `on_exception` callbacks when there are any (`routed`), and swallowed otherwise; in
     the threaded class the exception leaves through the timer thread;
-  * the engine that calls `enter`/`exit` is abstract: `Cfg.resolve state event` says which states an
-    event exits and enters (reflexive = exit + enter, internal = nothing).  The theorems hold for
-    EVERY such function;
+  * the engine that calls `enter`/`exit` is abstract: `Cfg.resolve state event` is the sequence of
+    `Timeout.exit` / `Timeout.enter` calls an event causes (reflexive = exit + enter, internal =
+    nothing; re-entrant triggers from on_enter callbacks and callbacks that raise are part of that
+    sequence).  `tEnter` starts the timer BEFORE anything an on_enter callback does, as the code
+    does (`Timeout.enter` starts the timer, then `super().enter` runs the callbacks).  The theorems
+    hold for EVERY such function;
   * time: a history is a list of `Op.tick early` (the clock moves by one unit; the events `early`
     arrive at that instant *before* the timers due at it fire — the "event wins the tie" order;
     then every waiting timer whose deadline is reached fires, in creation order, unless it has
@@ -60,7 +63,12 @@ inductive Rec
 /-- what the engine does with an event in a given (leaf) state -/
 inductive Step
   | stay                                            -- internal transition: no exit, no enter
-  | move (exits enters : List Nat) (dest : Nat)     -- exit these (in order), then enter these
+  /-- the `Timeout.exit` (false, s) / `Timeout.enter` (true, s) calls the engine makes for this event, in
+  order — including those of events triggered re-entrantly by on_enter callbacks (they run, or are
+  queued and run, right after the entry they belong to) and cut short where an on_enter / on_exit
+  callback raises; `dest` the model's state afterwards; `raises`: an exception leaves the trigger call
+  (a callback raised and the machine has no on_exception handler) -/
+  | move (prog : List (Bool × Nat)) (dest : Nat) (raises : Bool)
   deriving Repr, Inhabited
 
 structure Cfg where
@@ -131,21 +139,30 @@ def tExit (m s : Nat) (st : St) : St :=
     | none => st
   st1.emit (.exit m s)
 
-def exits (m : Nat) (xs : List Nat) (st : St) : St := xs.foldl (fun a s => tExit m s a) st
-def enters (cfg : Cfg) (m : Nat) (ns : List Nat) (st : St) : St := ns.foldl (fun a s => tEnter cfg m s a) st
+def act (cfg : Cfg) (m : Nat) (st : St) (a : Bool × Nat) : St :=
+  if a.1 then tEnter cfg m a.2 st else tExit m a.2 st
+
+def acts (cfg : Cfg) (m : Nat) (prog : List (Bool × Nat)) (st : St) : St := prog.foldl (act cfg m) st
 
 /-- one event on one model: the engine exits and enters what `resolve` says -/
 def trigger (cfg : Cfg) (m e : Nat) (st : St) : St :=
   match cfg.resolve (st.cur m) e with
   | none => st
   | some .stay => st
-  | some (.move xs ns d) =>
-    let st1 := exits m xs st
-    enters cfg m ns { st1 with cur := fun m' => if m' = m then d else st1.cur m' }
+  | some (.move prog d _) =>
+    let st1 := acts cfg m prog st
+    { st1 with cur := fun m' => if m' = m then d else st1.cur m' }
 
-/-- how the handler ends: `firedEnd`, or `raised` (+ `routed` under AsyncTimeout with on_exception) -/
-def handlerEnd (cfg : Cfg) (m s : Nat) (st : St) : St :=
-  if cfg.raises s then
+/-- does an exception leave that trigger call -/
+def triggerRaises (cfg : Cfg) (m e : Nat) (st : St) : Bool :=
+  match cfg.resolve (st.cur m) e with
+  | some (.move _ _ r) => r
+  | _ => false
+
+/-- how the handler ends: `firedEnd`, or `raised` (+ `routed` under AsyncTimeout with on_exception) when it
+raises itself or the event it triggered let an exception through (`r`) -/
+def handlerEnd (cfg : Cfg) (m s : Nat) (r : Bool) (st : St) : St :=
+  if cfg.raises s || r then
     if cfg.async && cfg.onExc then (st.emit (.raised m s)).emit (.routed m s) else st.emit (.raised m s)
   else st.emit (.firedEnd m s)
 
@@ -158,7 +175,10 @@ def fire (cfg : Cfg) (i : Nat) (st : St) : St :=
       let st2 := match cfg.action t.s with
         | some e => trigger cfg t.m e st1
         | none => st1
-      let st3 := handlerEnd cfg t.m t.s st2
+      let r := match cfg.action t.s with
+        | some e => triggerRaises cfg t.m e st1
+        | none => false
+      let st3 := handlerEnd cfg t.m t.s r st2
       { st3 with timers := setPhase st3.timers i .finished }
     else st
   | none => st
